@@ -68,6 +68,37 @@ pub fn drive(t: &mut Tracer, tier: &str, seed: u64) {
             }
         }
     }
+    // --- the same helpers again with DEcreasing lengths, and SM9 operations for identities of decreasing length: all calls share one worker
+    //     thread, so state kept per thread (scratch buffers sized by an earlier, longer input) is carried into the shorter call ---
+    for len in lens.iter().rev().step_by(if thorough { 1 } else { 3 }) {
+        let l = *len;
+        let data = rng.bytes(l);
+        { let d = data.clone(); call(t, &mut n, "sm9.kdf", "descending", l, move || { let _ = gm_sm9::key::verif_kdf(&d, 40); Ok::<(), String>(()) }); }
+        { let d = data.clone(); call(t, &mut n, "sm2.kdf", "descending", l, move || { let _ = gm_sm2::util::kdf(&d, 40); Ok::<(), String>(()) }); }
+        { let d = data.clone(); call(t, &mut n, "sm9.hash1", "descending", l, move || { let _ = gm_sm9::key::verif_hash1(&d, 3); Ok::<(), String>(()) }); }
+        { let (p, d) = (pk.clone(), data.clone()); call(t, &mut n, "sm2.verify_msg", "descending", l, move || { let _ = p.verify(None, &d, &[7u8; 64]); Ok::<(), String>(()) }); }
+        { let d = data.clone(); call(t, &mut n, "sm4.cfb_dec", "descending", l, move || e(Sm4CipherMode::new(&[7u8; 16], CipherMode::Cfb).and_then(|c| c.decrypt(&d, &[1u8; 16])))); }
+    }
+    {
+        let ke = gm_sm9::u256::u256_from_be_bytes(&[3u8; 32]);
+        let msk = gm_sm9::key::Sm9EncMasterKey { ke, ppube: gm_sm9::points::Point::g_mul(&ke) };
+        let ks = gm_sm9::u256::u256_from_be_bytes(&[5u8; 32]);
+        let smk = gm_sm9::key::Sm9SignMasterKey { ks, ppubs: gm_sm9::points::TwistPoint::g_mul(&ks) };
+        for idlen in [200usize, 64, 33, 8, 1, 100, 2] {
+            let id = vec![b'a' + (idlen % 23) as u8; idlen];
+            { let (m, i) = (msk, id.clone()); call(t, &mut n, "sm9.roundtrip_id", "descending", idlen, move || -> Result<(), String> {
+                let c = m.encrypt(&i, b"identity length sequence"); let k = m.extract_key(&i).ok_or("nokey".to_string())?;
+                let out = k.decrypt(&i, &c).map_err(|x| format!("{:?}", x))?; if out == b"identity length sequence" { Ok(()) } else { Err("mismatch".into()) } }); }
+            { let (m, i) = (smk, id.clone()); call(t, &mut n, "sm9.signverify_id", "descending", idlen, move || -> Result<(), String> {
+                let k = m.extract_key(&i).ok_or("nokey".to_string())?; let (h, s) = k.sign(b"msg").map_err(|x| format!("{:?}", x))?; e(m.verify_sign(&i, b"msg", &h, &s)) }); }
+            { let (m, i) = (msk, id.clone()); call(t, &mut n, "sm9.exchange_id", "descending", idlen, move || -> Result<(), String> {
+                let (ka, kb) = (m.extract_exch_key(b"alice").ok_or("nokey".to_string())?, m.extract_exch_key(&i).ok_or("nokey".to_string())?);
+                let (ra, ra_) = gm_sm9::key::exch_step_1a(&m, &i);
+                let (rb, skb) = gm_sm9::key::exch_step_1b(&m, b"alice", &i, &kb, &ra, 16).map_err(|x| format!("{:?}", x))?;
+                let ska = gm_sm9::key::exch_step_2a(&m, b"alice", &i, &ka, ra_, &ra, &rb, 16).map_err(|x| format!("{:?}", x))?;
+                if ska == skb { Ok(()) } else { Err("keys differ".into()) } }); }
+        }
+    }
     // --- truncations and single-byte corruptions of valid encodings ---
     let spki = pk.to_public_key_der().unwrap().as_bytes().to_vec();
     let p8 = key.sk.to_pkcs8_der().unwrap().as_bytes().to_vec();
